@@ -810,6 +810,128 @@ func c01(c *Ctx) {
 		})
 	}
 
+	c.Rule("C01.R11", "the parser hands on what it folded: in DatagramParser.Run every path from a MetricMap.Receive to the next batch passes the DispatchMetricMap of that map; a guard may only test the emptiness of what was folded (the slice ranged over, or the map)", 1, func(r *Rule) {
+		run := w.Func("pkg/statsd", "(*DatagramParser).Run")
+		if run == nil {
+			r.Unresolved("(*DatagramParser).Run")
+			return
+		}
+		c.SawFunc(FuncName(run))
+		for i, rc := range callsTo(run, "(*gostatsd.MetricMap).Receive") {
+			args := rc.Common().Args
+			mm := args[0]
+			var folded ssa.Value
+			if u, isU := args[1].(*ssa.UnOp); isU {
+				if ia, isIA := u.X.(*ssa.IndexAddr); isIA {
+					folded = ia.X
+				}
+			}
+			dispatches := func(b *ssa.BasicBlock) bool {
+				for _, in := range b.Instrs {
+					if cl, ok := in.(ssa.CallInstruction); ok && cl.Common().IsInvoke() && cl.Common().Method.Name() == "DispatchMetricMap" && len(cl.Common().Args) == 2 && cl.Common().Args[1] == mm {
+						if _, isGo := in.(*ssa.Go); !isGo {
+							return true
+						}
+					}
+				}
+				return false
+			}
+			nextBatch := func(b *ssa.BasicBlock) bool {
+				for _, in := range b.Instrs {
+					switch in.(type) {
+					case *ssa.Select, *ssa.Return:
+						return true
+					}
+				}
+				return false
+			}
+			// nonEmpty(cond) = +1 when cond holds exactly when the folded data is non-empty, -1 when it holds exactly when it is empty
+			nonEmpty := func(cond ssa.Value) int {
+				sense := 1
+				for {
+					u, ok := cond.(*ssa.UnOp)
+					if !ok || u.Op != token.NOT {
+						break
+					}
+					sense, cond = -sense, u.X
+				}
+				if cl, ok := cond.(*ssa.Call); ok && isCall(cl, "(*gostatsd.MetricMap).IsEmpty") && cl.Call.Args[0] == mm {
+					return -sense
+				}
+				b, ok := cond.(*ssa.BinOp)
+				if !ok || folded == nil {
+					return 0
+				}
+				isLen := func(v ssa.Value) bool {
+					cl, ok := v.(*ssa.Call)
+					return ok && isCall(cl, "builtin len") && cl.Call.Args[0] == folded
+				}
+				x, y, op := b.X, b.Y, b.Op
+				if isLen(y) { // const OP len -> len OP' const
+					x, y = y, x
+					switch op {
+					case token.LSS:
+						op = token.GTR
+					case token.GTR:
+						op = token.LSS
+					case token.LEQ:
+						op = token.GEQ
+					case token.GEQ:
+						op = token.LEQ
+					}
+				}
+				k, isC := constInt(y)
+				if !isLen(x) || !isC {
+					return 0
+				}
+				switch {
+				case op == token.GTR && k == 0, op == token.NEQ && k == 0, op == token.GEQ && k == 1:
+					return sense
+				case op == token.EQL && k == 0, op == token.LSS && k == 1, op == token.LEQ && k == 0:
+					return -sense
+				}
+				return 0
+			}
+			seen := map[*ssa.BasicBlock]bool{}
+			var escape *ssa.BasicBlock
+			var dfs func(b *ssa.BasicBlock)
+			dfs = func(b *ssa.BasicBlock) {
+				if escape != nil || seen[b] {
+					return
+				}
+				seen[b] = true
+				if dispatches(b) {
+					return
+				}
+				if b != rc.Block() && nextBatch(b) {
+					escape = b
+					return
+				}
+				succs := b.Succs
+				if iff, ok := b.Instrs[len(b.Instrs)-1].(*ssa.If); ok && len(succs) == 2 {
+					switch nonEmpty(iff.Cond) {
+					case 1:
+						succs = succs[:1]
+					case -1:
+						succs = succs[1:]
+					}
+				}
+				for _, s := range succs {
+					dfs(s)
+				}
+			}
+			seen[rc.Block()] = false
+			for _, s := range rc.Block().Succs {
+				dfs(s)
+			}
+			where := ""
+			if escape != nil {
+				where = fmt.Sprintf(" (reaches block %d %s without it)", escape.Index, escape.Comment)
+			}
+			r.Check(fmt.Sprintf("Run:folded-is-dispatched#%d", i+1), escape == nil, rc.Pos(), "after mm.Receive the batch map is dispatched before the next batch is read"+where)
+		}
+	})
+
 	c.Rule("C01.R7", "four-type exhaustiveness on the standalone path (C07.R6)", 10, func(r *Rule) {
 		fourTypeRule(c, r, nil)
 	})
@@ -819,7 +941,7 @@ func c01(c *Ctx) {
 		c07(sub)
 		for _, sr := range sub.Rules {
 			switch sr.ID {
-			case "C07.R1", "C07.R2", "C07.R3", "C07.R4", "C07.R5", "C07.R5b", "C07.R8":
+			case "C07.R1", "C07.R2", "C07.R3", "C07.R4", "C07.R5", "C07.R5b", "C07.R5c", "C07.R8":
 			default:
 				continue
 			}
